@@ -113,6 +113,17 @@ def run_enc_property(prop, tier, replay):
                                   dict(case=dict(program=r['src'], lines=r['lines'], compress=compress, problem=msg, property=p)))
         rep.count('programs_through_pipeline', len(progres))
         nontrivial += len(set(r['nontrivial'] for r in progres))
+    if prop in ('C01', 'C02'):
+        # independent of the Lean model AND of the hand-written specification: LLVM 14's RISC-V back end
+        from harness import llvmx
+        nontrivial += llvmx.impl_check(rep, prop, tier)
+        rep.evaluations += llvmx.spec_check(rep, 32 if prop == 'C01' else 16, tier)
+        rep.cov['llvm_cross_check'] = ('llvm-mc-14: (a) the specification decoder BB.Spec.decode%s vs LLVM\'s disassembler on %s; '
+                                       '(b) bronzebeard vs LLVM\'s assembler on literal lines, bytes equal wherever both accept. '
+                                       'Documented differences (counted): LLVM also decodes HINT encodings, shift amounts >= 32 '
+                                       '(RV64 table), F/D and privileged instructions; bronzebeard refuses odd jalr offsets (its '
+                                       'reference documents MO2) and hints.') % (
+            ('32', 'every opcode/funct3/funct7 combination + seeded words') if prop == 'C01' else ('16', 'all 49152 halfwords'))
     rep.cov['model_vs_impl_disagreements'] = tot_mismatch
     rep.cov['exhaustive'] = prop == 'C02'
     rep.assumptions += [
